@@ -40,6 +40,7 @@ func init() {
 			{ID: "R03.15", Template: "T-CONSULT", Text: "the validator compares a tail call's callee results with the function's results (genuine defect found and fixed)", Min: 2},
 			{ID: "R03.16", Template: "T-TAINT", Text: "no string concatenation in loops over input-sized data on the decode path (genuine defect found and fixed: FunctionType.key)", Min: 1},
 			{ID: "R03.17", Template: "T-OWN", Text: "a scratch buffer (reset-and-refilled slice field) is used only by the methods of its struct", Min: 1},
+			{ID: "R03.21", Template: "T-MUSTPASS", Text: "the indexes of every element segment are range-checked, whatever its mode", Min: 1},
 			{ID: "R03.20", Template: "T-TAINT", Text: "an index taken from a decoded name map is bounded before it indexes a slice", Min: 1},
 			{ID: "R03.18", Template: "T-SIBLING", Text: "a reserved zero immediate accepted by the validator is one byte long (both engines skip exactly one byte)", Min: 3},
 			{ID: "R03.19", Template: "T-SIBLING", Text: "the interpreter lowering skips count+1 labels of a br_table in dead code", Min: 1},
@@ -47,6 +48,7 @@ func init() {
 		},
 		Run: runC03,
 		Controls: []core.Control{
+			{Name: "declarative-segments-not-range-checked", File: "internal/wasm/table.go", Old: "\t\tinitCount := uint32(len(elem.Init))\n", New: "\t\tinitCount := uint32(len(elem.Init))\n\t\tif elem.Mode == ElementModeDeclarative {\n\t\t\tcontinue\n\t\t}\n", Rule: "R03.21", Substr: "whatever its mode"},
 			{Name: "param-names-index-unchecked", File: "internal/wasm/module.go", Old: "\t\t\tif int(p.Index) < paramLen {\n\t\t\t\tret[p.Index] = p.Name\n\t\t\t}\n", New: "\t\t\tret[p.Index] = p.Name\n", Rule: "R03.20", Substr: "name map"},
 			{Name: "reserved-index-any-leb", File: "internal/wasm/func_validation.go", Old: "\t\t\tif val != 0 || num != 1 {\n\t\t\t\treturn fmt.Errorf(\"memory instruction reserved bytes not zero with 1 byte\")", New: "\t\t\tif val != 0 {\n\t\t\t\treturn fmt.Errorf(\"memory instruction reserved bytes not zero with 1 byte\")", Rule: "R03.18", Substr: "reserved zero immediate"},
 			{Name: "dead-br-table-skips-count-labels", File: "internal/engine/interpreter/compiler.go", Old: "for i := uint32(0); i <= numTargets; i++ {", New: "for i := uint32(0); i < numTargets; i++ {", Rule: "R03.19", Substr: "br_table"},
@@ -74,6 +76,7 @@ func init() {
 }
 
 func runC03(c *core.Ctx) {
+	checkElementIndexesCheckedForEveryMode(c)
 	checkNameIndexesBounded(c)
 	checkReservedImmediatesOneByte(c)
 	checkBrTableSkipsDefault(c)
